@@ -73,7 +73,7 @@ Theorem load_used_equals_fresh :
 Proof. exact load_used_equals_fresh. Qed.
 Print Assumptions load_used_equals_fresh.
 
-(* any number of queries (get_qobjevo, get_noisy_pulses, run_analytically, get_full_*) leaves the heap and the
+(* any number of queries (get_qobjevo, get_noisy_pulses, run_analytically, get_full_tlist, get_full_coeffs) leaves the heap and the
    pulses every processor holds -- as functions of time with their noise elements -- unchanged *)
 Theorem queries_preserve_held :
   forall fl, (f_gnp_copy fl || f_pn_copy fl) = true -> f_pn_list_copy fl = true ->
